@@ -897,3 +897,50 @@ package evaluator
 //@   ensures  result2(0) == nil && node.Chain.Arg == nil ==> ncalls >= 2 && called(1, evaluator.evalCallArgs) && arg1(1) == node && arg2(1) == env
 //@   assigns  EC
 
+//
+// ---- C08 / C09 / C07: one pair of a literal ----------------------------------------------------------------
+// k: v evaluates the value, then (unless the key is a bare or pinned name) the key, each once; the first error
+// ends the evaluation and is what the pair evaluation reports; otherwise the pair holds exactly the two results
+// searchPinnedKey evaluates the name behind `^name` (Eval(&p.Ident, env)); taking the address of an embedded struct
+// is outside the engine's subset, so the four-line body is trusted: a value and no error, or no value and the error
+//@ props C08 C09 C07
+//@ func evaluator.searchPinnedKey(p, env) k, err
+//@   trusted
+//@   requires p != nil && env != nil
+//@   ensures  err == nil ==> isVal(k)
+//@   ensures  err != nil ==> k == nil
+//@   assigns  EC
+//@ func evaluator.evalMapPair(node, env) pair, err
+//@   requires node != nil && env != nil
+//@   ensures  ncalls >= 1 && called(0, evaluator.Eval) && arg1(0) == node.Val && arg2(0) == env
+//@   ensures  isT(result(0), *object.PanErr) ==> ncalls == 1 && err == as(result(0), *object.PanErr)
+//@   ensures  !isT(result(0), *object.PanErr) && !isT(node.Key, *ast.PinnedIdent) ==> ncalls == 2 && called(1, evaluator.Eval) && arg1(1) == node.Key && arg2(1) == env
+//@   ensures  !isT(result(0), *object.PanErr) && !isT(node.Key, *ast.PinnedIdent) && isT(result(1), *object.PanErr) ==> err == as(result(1), *object.PanErr)
+//@   ensures  !isT(result(0), *object.PanErr) && !isT(node.Key, *ast.PinnedIdent) && !isT(result(1), *object.PanErr) ==> err == nil && pair.Key == result(1) && pair.Value == result(0)
+//@   ensures  err == nil ==> pair.Value == result(0) && isVal(pair.Key) && isVal(pair.Value)
+//@   assigns  EC
+// {k: v}: as above; a bare name is the str of that name (no evaluation), any other key is evaluated after the value
+//@ func evaluator.evalObjPair(node, env) pair, err
+//@   requires node != nil && env != nil
+//@   ensures  ncalls >= 1 && called(0, evaluator.Eval) && arg1(0) == node.Val && arg2(0) == env
+//@   ensures  isT(result(0), *object.PanErr) ==> ncalls == 1 && err == as(result(0), *object.PanErr)
+//@   ensures  !isT(result(0), *object.PanErr) && isT(node.Key, *ast.Ident) ==> ncalls == 1 && err == nil && isT(pair.Key, *object.PanStr) && pair.Value == result(0)
+//@   ensures  !isT(result(0), *object.PanErr) && !isT(node.Key, *ast.Ident) && !isT(node.Key, *ast.PinnedIdent) ==> ncalls == 2 && called(1, evaluator.Eval) && arg1(1) == node.Key && arg2(1) == env
+//@   ensures  !isT(result(0), *object.PanErr) && !isT(node.Key, *ast.Ident) && !isT(node.Key, *ast.PinnedIdent) && isT(result(1), *object.PanErr) ==> err == as(result(1), *object.PanErr)
+//@   ensures  !isT(result(0), *object.PanErr) && !isT(node.Key, *ast.Ident) && !isT(node.Key, *ast.PinnedIdent) && !isT(result(1), *object.PanErr) ==> err == nil && pair.Key == result(1) && pair.Value == result(0)
+//@   ensures  err == nil ==> pair.Value == result(0) && isVal(pair.Key) && isVal(pair.Value)
+//@   assigns  EC
+//
+// ---- C05: indexing by symbol agrees with the property search -------------------------------------------------
+// o['name] is whatever the search along o's prototype chain finds first under that name - also when that is nil -
+// and nil when the search finds nothing: one search, on the receiver, under the hash of the name
+//@ props C05
+//@ func evaluator.findElemInObj(env, kwargs, args) res
+//@   let ix := traceArr(args[1])
+//@   let named := len(args) >= 2 && ix != nil && len(ix.Elems) >= 1 && traceStr(ix.Elems[0]) != nil
+//@   ensures  named ==> ncalls == 1 && called(0, object.FindPropAlongProtos) && arg1(0) == args[0] && arg2(0) == symhash(traceStr(ix.Elems[0]).Value)
+//@   ensures  named && resultok(0) ==> res == result(0)
+//@   ensures  named && !resultok(0) ==> res == object.BuiltInNil
+//@   ensures  !named ==> ncalls == 0
+//@   ensures  len(args) >= 2 && !named ==> res == object.BuiltInNil
+//@   assigns  nothing
